@@ -22,16 +22,24 @@ EFFECTIVE_SUPPORT_THRESHOLD was lowered (1e-4) or raised (2e-3), every bound tak
 `threshold_history` builds a bank and reads its supports under one value, changes the constant and checks
 the SAME object again against the new value.
 
+`argument_types` hands the filter index and the buffer width over as numpy integer scalars (int16 where the
+value fits, int32, int64, intp; both, only the width, only the index) on banks with long supports (24 / 40
+filters at 16 kHz, gammatone orders 3, 4, 5) in the widths {W0, W0+1, 512, 2048, 4096}: the typed call must
+satisfy the oracles above and agree with the call that passes Python ints.  `option_spelling` builds every bank
+with its boolean options given as 0 / 1 or numpy.bool_ (constructor) and as JSON through the alias factory, and
+passes `half` as False / 0 / numpy.False_ (1 / numpy.True_): same read-only facts, same responses, same oracles.
+
 Every (bank, filter, width) case is evaluated on a bank object of its own (impulse response, then
 frequency response), exactly as its replay does.  `history` explores call histories on ONE
 object (engine in c05.py): every sequence of 2 / 3 calls over {get_impulse_response,
 get_frequency_response} x {first, last filter} x the in-domain widths {W0, W0+1, 2 W0}.
 """
+import json
 import math
 
 import numpy as np
 
-from .. import computers, core
+from .. import cfg, computers, core
 from ..refs import banks as ref
 from . import c05
 
@@ -53,6 +61,14 @@ ASSUMPTIONS = [
     "is the value in force when the bound is evaluated, and W0 comes from the supports as read at that moment. "
     "Lowering the constant under an existing Gabor / gammatone bank (whose supports and truncation were fixed by "
     "the value it was built under) is left open",
+    "argument types: signed numpy integer scalars {int16, int32, int64, intp} for the filter index and the width "
+    "(unsigned types, 0-d arrays and floats with integral values are left open); a typed call may differ from the "
+    "Python-int call by 1e-6 (numpy evaluates log(int16) in float32; measured <= 2e-8 on this tree), far below the "
+    "threshold; get_truncated_response is compared with its own Python-int result only (its contract is C05 / C06)",
+    "option spelling: a boolean option given as 0 / 1, numpy.bool_ or JSON true / false is taken to mean the bool of "
+    "the same truth value (the alias factory is documented 'to work nicely with JSON config files'); a spelling the "
+    "constructor refuses with an exception is skipped, not demanded; other truthy values (2, 'false', arrays) are "
+    "left open",
     "no signal data is involved: pass/fail cannot depend on VERIF_SEED",
 ]
 
@@ -91,11 +107,15 @@ def widths_of_thr(w0):
     return [w0, w0 + 1, 2 * w0]
 
 
-def _eval_fw(bank, b, i, w, e):
-    """-> (list of (what, extra, detail), notes)"""
+def _eval_fw(bank, b, i, w, e, ci=None, cw=None, fkw=None, keep=None):
+    """-> (list of (what, extra, detail), notes).  `ci`, `cw` are the filter index and the width AS HANDED to
+    the two methods (same values as the ints i, w, possibly of another integer type), `fkw` extra keyword
+    arguments of get_frequency_response (a falsy `half`); `keep` (a dict) receives the two arrays"""
     out, notes = [], set()
-    ri = computers.call(bank.get_impulse_response, i, w)
-    rf = computers.call(bank.get_frequency_response, i, w)
+    ci = i if ci is None else ci
+    cw = w if cw is None else cw
+    ri = computers.call(bank.get_impulse_response, ci, cw)
+    rf = computers.call(lambda: bank.get_frequency_response(ci, cw, **(fkw or {})))
     for name, r in (("impulse", ri), ("frequency", rf)):
         if r[0] != "ok":
             out.append(("exception", dict(exc=r[1]),
@@ -103,6 +123,8 @@ def _eval_fw(bank, b, i, w, e):
             return out, notes
     imp = np.asarray(ri[1])
     fr = np.asarray(rf[1])
+    if keep is not None:
+        keep["imp"], keep["fr"] = imp, fr
     if imp.shape != (w,) or fr.shape != (w,):
         return [("shape", {}, "shapes %r / %r for width %d" % (imp.shape, fr.shape, w))], notes
     if not (np.all(np.isfinite(imp)) and np.all(np.isfinite(fr))):
@@ -219,6 +241,8 @@ def _bank(b, cap, widths_of=widths_of):
 
 @c05.quiet
 def _replay(case):
+    if "argtypes" in case or "spelling" in case:
+        return _replay_types(case)
     if "t0" in case:
         return c05.threshold_history_point(case, _threshold_judge)
     with c05.threshold_in_force(case["bank"].get("threshold")):
@@ -316,6 +340,278 @@ def _pair_point(pt):
                        sample=dict(A=ba, B=bb))
 
 
+# ---------------------------------------------------------------- argument and option TYPES
+#
+# The same VALUE handed over as another type: the filter index and the buffer width as numpy integer scalars
+# (an entry of an int32 array of frame lengths), a boolean option as 0 / 1 (JSON, command line) or numpy.bool_
+# (the result of a comparison).  The property speaks about banks and buffers, not about the Python type that
+# carries the number.
+
+INT_TYPES = ("int", "int16", "int32", "int64", "intp")
+BIG_WIDTHS = (512, 2048, 4096)
+ARG_W0_CAP = 4096
+TYPE_TOL = 1e-6     # numpy computes log(int16) in float32: a typed call may differ from the int call by rounding
+FLAG_KEYS = ("analytic", "erb", "scale_l2_norm", "max_centered")
+SPELLINGS = (("ctor", "int"), ("ctor", "np_bool"), ("alias", "bool"), ("alias", "int"))
+HALF_FALSY = (("bool", False), ("int", 0), ("np_bool", np.False_))
+HALF_TRUTHY = (("int", 1), ("np_bool", np.True_))
+SPELL_W0_CAP = 1000
+
+
+def _as_type(tn, v):
+    if tn == "int":
+        return int(v)
+    T = getattr(np, tn)
+    info = np.iinfo(T)
+    if not (info.min <= v <= info.max):
+        return None
+    return T(v)
+
+
+def type_combos():
+    """(index type, width type): both numpy, only the width, only the index"""
+    others = [t for t in INT_TYPES if t != "int"]
+    return [(t, t) for t in others] + [("int", t) for t in others] + [(t, "int") for t in others]
+
+
+def argtype_banks(tier):
+    out = []
+    sizes = ((10, 8000), (24, 16000), (40, 16000)) + (((64, 22050),) if tier == "thorough" else ())
+    for nf, rate in sizes:
+        out += c05.bank_lattice(c05.ALL_KINDS, (nf,), (rate,), orders=(3, 4, 5), scales=("mel",),
+                                ranges_fn=lambda kind, rate: [(20.0, None)])
+    return [b for b in out if not (b["name"] == "gammatone" and b.get("scale_l2_norm"))]
+
+
+def _max_diff(a, b):
+    a, b = np.asarray(a), np.asarray(b)
+    if a.shape != b.shape:
+        return float("inf")
+    if a.size == 0:
+        return 0.0
+    d = np.abs(a - b)
+    return float("inf") if not np.all(np.isfinite(d)) else float(d.max())
+
+
+def _typed_case(bank, b, i, w, ti, tw, e, base=None):
+    """one (filter, width) case with the two arguments handed over as types ti / tw, on `bank` (an object of
+    its own) -> (findings, kept results) or None when a value does not fit the type.  With `base` (the results
+    of the int / int call on another object) the typed results are also compared with it."""
+    ci, cw = _as_type(ti, i), _as_type(tw, w)
+    if ci is None or cw is None:
+        return None
+    keep = {}
+    extra = dict(index_type=ti, width_type=tw)
+    got, _ = _eval_fw(bank, b, i, w, e, ci, cw, keep=keep)
+    out = [(what, dict(x, **extra), "arguments (%s(%d), %s(%d)): %s" % (ti, i, tw, w, detail))
+           for what, x, detail in got]
+    keep["trunc"] = computers.call(bank.get_truncated_response, ci, cw)
+    if base is not None:
+        for key, meth in (("imp", "get_impulse_response"), ("fr", "get_frequency_response")):
+            if key in keep and key in base:
+                d = _max_diff(keep[key], base[key])
+                if not d <= TYPE_TOL:
+                    out.append(("type_differs", dict(extra, method=meth),
+                                "%s(%s(%d), %s(%d)) differs from the result for Python ints by %.3g (shape %r vs "
+                                "%r)" % (meth, ti, i, tw, w, d, keep[key].shape, base[key].shape)))
+        rt, r0 = keep["trunc"], base["trunc"]
+        if rt[0] != r0[0]:
+            out.append(("type_differs", dict(extra, method="get_truncated_response"),
+                        "get_truncated_response(%s(%d), %s(%d)) -> %r, with Python ints -> %r" % (
+                            ti, i, tw, w, rt[:2] if rt[0] == "exc" else "a result",
+                            r0[:2] if r0[0] == "exc" else "a result")))
+        elif rt[0] == "ok":
+            try:
+                same = int(rt[1][0]) == int(r0[1][0]) and _max_diff(rt[1][1], r0[1][1]) <= TYPE_TOL
+            except Exception:
+                same = False
+            if not same:
+                out.append(("type_differs", dict(extra, method="get_truncated_response"),
+                            "get_truncated_response(%s(%d), %s(%d)) = (%r, array %r) differs from the result for "
+                            "Python ints (%r, array %r)" % (ti, i, tw, w, rt[1][0], np.shape(rt[1][1]), r0[1][0],
+                                                            np.shape(r0[1][1]))))
+    return out, keep
+
+
+def _argtype_filters(bank):
+    lens = [float(r) - float(l) for l, r in bank.supports]
+    longest = max(range(len(lens)), key=lambda k: (lens[k] if math.isfinite(lens[k]) else -1.0, -k))
+    return sorted({0, bank.num_filts - 1, longest})
+
+
+@c05.quiet
+def _argtypes(pt, only=None):
+    """pt = dict(bank=, role=k): the k-th of the bank's (up to three) distinct filters {first, last, longest support}"""
+    b = pt["bank"]
+    r = c05.build(b)
+    if r[0] != "ok":
+        return c05.unconstructible(r)
+    bank = r[1]
+    pristine = c05.Pristine(b)
+    tags = c05.bank_tags(b)
+    e = c05.eps()
+    viol, seen, notes = [], set(), set()
+    evals = nontriv = 0
+
+    def note(found, i, w, ti, tw):
+        for what, extra, detail in found:
+            key = (what,) + tuple(sorted(extra.items()))
+            if key not in seen:
+                seen.add(key)
+                viol.append(core.violation(dict(tags, what=what, **extra), detail,
+                                           dict(argtypes=[ti, tw], bank=b, filt=i, width=w)))
+
+    filts = _argtype_filters(bank)
+    if only is not None:
+        filts = [only["filt"]]
+    elif pt["role"] >= len(filts):
+        return core.result([], nontrivial=False, obs="fewer_distinct_filters", skipped=True)
+    else:
+        filts = [filts[pt["role"]]]
+    for i in filts:
+        w0 = base_width(bank, i)
+        if w0 is None or w0 > ARG_W0_CAP:
+            notes.add("no_finite_supports" if w0 is None else "w0_above_cap")
+            evals += 1
+            continue
+        widths = [w0, w0 + 1] + [W for W in BIG_WIDTHS if W > w0 + 1]
+        if only is not None:
+            widths = [only["width"]]
+        for w in widths:
+            found, base = _typed_case(pristine.fresh(), b, i, w, "int", "int", e)
+            evals += 1
+            note(found, i, w, "int", "int")
+            for ti, tw in (type_combos() if only is None else [tuple(only["argtypes"])]):
+                if (ti, tw) == ("int", "int"):
+                    continue
+                got = _typed_case(pristine.fresh(), b, i, w, ti, tw, e, base)
+                if got is None:
+                    notes.add("does_not_fit")
+                    continue
+                evals += 1
+                nontriv += 1
+                note(got[0], i, w, ti, tw)
+    return core.result(viol, evals=evals, nontrivial_count=nontriv,
+                       obs=(b["name"], sorted(notes), sorted(map(str, seen))),
+                       sample=dict(bank=b, filters=filts))
+
+
+def spelling_banks(tier):
+    nfs = (3, 10, 24) if tier == "thorough" else (3, 10)
+    out = c05.bank_lattice(c05.ALL_KINDS, nfs, (8000,), orders=(3, 4), scales=("mel", "linear"),
+                           ranges_fn=lambda kind, rate: [(20.0, None)])
+    return [b for b in out if not (b["name"] == "gammatone" and b.get("scale_l2_norm"))]
+
+
+def _spell(v, how):
+    return int(v) if how == "int" else np.bool_(v) if how == "np_bool" else bool(v)
+
+
+def build_spelt(b, route, how):
+    """the bank of configuration b with every boolean option given as `how`, constructed directly ("ctor") or
+    from JSON text through the library's alias factory ("alias")"""
+    d = {k: (_spell(v, how) if k in FLAG_KEYS else v) for k, v in b.items()}
+    if route == "ctor":
+        return computers.call(cfg.make_bank, d)
+    from pydrobert.speech import alias, filters
+
+    if d.get("scaling_function") == "linear":
+        d["scaling_function"] = {"name": "linear", "low_hz": 0.0}    # what cfg.make_scale builds
+    text = json.dumps(d)
+    return computers.call(lambda: alias.alias_factory_subclass_from_arg(filters.LinearFilterBank, json.loads(text)))
+
+
+SPELL_PROPS = ("is_real", "is_analytic", "is_zero_phase", "num_filts", "sampling_rate", "supports", "supports_hz")
+
+
+def _same_value(a, b):
+    try:
+        a, b = np.asarray(a, dtype=float), np.asarray(b, dtype=float)
+    except Exception:
+        return False
+    return a.shape == b.shape and bool(np.all((a == b) | (np.isnan(a) & np.isnan(b))))
+
+
+@c05.quiet
+def _spelling_point(pt, only=None):
+    b, (route, how) = pt["bank"], pt["spelling"]
+    r0 = c05.build(b)
+    if r0[0] != "ok":
+        return c05.unconstructible(r0)
+    rv = build_spelt(b, route, how)
+    if rv[0] != "ok":
+        # refusing the spelling is an answer; behaving differently without saying so is not
+        return core.result([], nontrivial=False, obs=("refused", route, how, rv[1]), skipped=True)
+    plain, var = r0[1], rv[1]
+    tags = dict(c05.bank_tags(b), route=route, spelling=how)
+    e = c05.eps()
+    viol, seen = [], set()
+    evals = nontriv = 0
+
+    def note(what, extra, detail, i=None, w=None, half=None):
+        key = (what,) + tuple(sorted(extra.items()))
+        if key not in seen:
+            seen.add(key)
+            viol.append(core.violation(dict(tags, what=what, **extra),
+                                       "options %r given as %s through the %s: %s" % (
+                                           {k: b[k] for k in FLAG_KEYS if k in b}, how,
+                                           "constructor" if route == "ctor" else "alias factory (JSON)", detail),
+                                       dict(spelling=[route, how], bank=b, filt=i, width=w, half=half)))
+
+    if type(var) is not type(plain):
+        note("spelling_class", {}, "class %s, expected %s" % (type(var).__name__, type(plain).__name__))
+        return core.result(viol, evals=1, nontrivial_count=1, obs=("class", route, how))
+    for name in SPELL_PROPS:
+        evals += 1
+        ga, gb = computers.call(getattr, var, name), computers.call(getattr, plain, name)
+        if ga[0] != gb[0] or (ga[0] == "ok" and not _same_value(ga[1], gb[1])):
+            note("spelling_props", dict(prop=name), "%s = %r, with Python bools %r" % (name, ga[1:], gb[1:]))
+    for i in range(plain.num_filts):
+        if only is not None and only.get("filt") is not None and i != only["filt"]:
+            continue
+        w0 = base_width(plain, i)
+        if w0 is None or w0 > SPELL_W0_CAP:
+            evals += 1
+            continue
+        for w in ([w0, w0 + 1, 2 * w0] if only is None or only.get("width") is None else [only["width"]]):
+            base = {}
+            _eval_fw(plain, b, i, w, e, keep=base)
+            for hname, hval in HALF_FALSY:
+                if only is not None and only.get("half") not in (None, hname):
+                    continue
+                evals += 1
+                nontriv += 1
+                keep = {}
+                got, _ = _eval_fw(var, b, i, w, e, fkw=dict(half=hval), keep=keep)
+                for what, extra, detail in got:
+                    note(what, dict(extra, half=hname), "half=%r: %s" % (hval, detail), i, w, hname)
+                for key, meth in (("imp", "get_impulse_response"), ("fr", "get_frequency_response")):
+                    if key in keep and key in base and not _max_diff(keep[key], base[key]) <= 1e-12:
+                        note("spelling_response", dict(method=meth, half=hname),
+                             "%s(%d, %d%s) differs by %.3g from the bank built with Python bools" % (
+                                 meth, i, w, ", half=%r" % (hval,) if key == "fr" else "",
+                                 _max_diff(keep[key], base[key])), i, w, hname)
+            rt = computers.call(lambda: var.get_frequency_response(i, w, half=True))
+            for hname, hval in HALF_TRUTHY:
+                if only is not None and only.get("half") not in (None, hname):
+                    continue
+                evals += 1
+                rh = computers.call(lambda: var.get_frequency_response(i, w, half=hval))
+                if rh[0] != rt[0] or (rh[0] == "ok" and not _max_diff(rh[1], rt[1]) == 0.0):
+                    note("half_spelling", dict(half=hname),
+                         "get_frequency_response(%d, %d, half=%r) -> %s, half=True -> %s" % (
+                             i, w, hval, rh[:2] if rh[0] == "exc" else "array %r" % (np.shape(rh[1]),),
+                             rt[:2] if rt[0] == "exc" else "array %r" % (np.shape(rt[1]),)), i, w, hname)
+    return core.result(viol, evals=evals, nontrivial_count=nontriv,
+                       obs=(b["name"], route, how, sorted(map(str, seen))), sample=dict(pt))
+
+
+def _replay_types(case):
+    if "argtypes" in case:
+        return _argtypes(dict(bank=case["bank"], role=0), only=case)
+    return _spelling_point(dict(bank=case["bank"], spelling=case["spelling"]), only=case)
+
+
 def subchecks(tier, seed):
     banks = lattice(tier)
     cap = W0_CAP[tier]
@@ -366,6 +662,36 @@ def subchecks(tier, seed):
         "gammatone bank is left open (skipped)" % (len(thb), c05.THRESHOLD_TRANSITIONS, HISTORY_W0_CAP),
         axes=dict(transitions=[list(t) for t in c05.THRESHOLD_TRANSITIONS], banks=len(thb)),
         replay=_replay, chunk=2, kind="histories"))
+    apts = argtype_banks(tier)
+    subs.append(core.SubCheck(
+        "argument_types", [dict(bank=b, role=k) for b in apts for k in range(3)], _argtypes,
+        "the filter index and the buffer width handed over as numpy integer scalars: %d banks (4 classes x every "
+        "flag combination of the domain, gammatone orders 3, 4, 5; mel, low 20 Hz; 10 filters at 8 kHz, 24 and 40 at "
+        "16 kHz) x {first, last, longest-support filter} x widths {W0, W0+1} and every width of %r above them "
+        "(W0 <= %d) x (index type, width type) in {(T, T), (int, T), (T, int) : T in int16 (where the value fits), "
+        "int32, int64, intp} besides (int, int), each call on a bank object of its own: the oracles of "
+        "supports_<class> on the typed call's results, and get_impulse_response / get_frequency_response / "
+        "get_truncated_response agree with the (int, int) call's (%g; start bin exactly). non-trivial = at least "
+        "one argument is a numpy scalar" % (len(apts), BIG_WIDTHS, ARG_W0_CAP, TYPE_TOL),
+        axes=dict(types=list(INT_TYPES), combos=[list(c) for c in type_combos()], big_widths=list(BIG_WIDTHS),
+                  banks=len(apts), orders=[3, 4, 5]),
+        replay=_replay, chunk=1))
+    spts = [dict(bank=b, spelling=list(sp)) for b in spelling_banks(tier) for sp in SPELLINGS]
+    subs.append(core.SubCheck(
+        "option_spelling", spts, _spelling_point,
+        "boolean options given as another type with the same truth value: banks (4 classes x scales {mel, linear} "
+        "x num_filts x 8 kHz, low 20 Hz x EVERY flag combination of the domain, gammatone orders 3, 4) x (route, "
+        "spelling) in %r - every flag (analytic / erb / scale_l2_norm / max_centered) as 0 / 1 or numpy.bool_ "
+        "through the constructor, as JSON true / false or 0 / 1 through alias_factory_subclass_from_arg: the bank "
+        "must report the same is_real / is_analytic / is_zero_phase / supports / supports_hz as the bank built "
+        "with Python bools, and for every filter x widths {W0, W0+1, 2W0} (W0 <= %d) x half in {False, 0, "
+        "numpy.False_} satisfy the oracles of supports_<class> and return the same responses (1e-12) as that "
+        "bank; half = 1 / numpy.True_ returns exactly what half=True returns. A spelling the constructor refuses "
+        "is skipped. non-trivial = a (filter, width, falsy half) case evaluated on the re-spelt bank" % (
+            SPELLINGS, SPELL_W0_CAP),
+        axes=dict(spelling=[list(x) for x in SPELLINGS], half=[h for h, _ in HALF_FALSY + HALF_TRUTHY],
+                  flags="every combination inside the property's domain", banks=len(spts) // len(SPELLINGS)),
+        replay=_replay, chunk=2))
     from . import c06
     subs.append(core.SubCheck(
         "bank_pairs", [(a, b) for a in range(len(c06.PAIR_BANKS)) for b in range(len(c06.PAIR_BANKS)) if a != b],
